@@ -866,6 +866,32 @@ class Exec:
             self.step(cur, work, outs, stop)
         return outs
 
+    def run_enter(self, st, enter):
+        """run a function / closure body on a fork of an existing state (its frames stay readable through references)"""
+        s2 = st.fork()
+        s2.stack = []
+        s2.notes = {}
+        work, outs = [], []
+        if isinstance(enter, list):
+            self_alts = enter
+            res = []
+            for alt in self_alts:
+                s3 = s2.fork()
+                s3.pc.extend(alt[0])
+                if isinstance(alt[1], Enter):
+                    self.enter(s3, alt[1], None, None, work, outs)
+                else:
+                    outs.append(Outcome('ret', s3, alt[1]))
+        elif isinstance(enter, Enter):
+            self.enter(s2, enter, None, None, work, outs)
+        else:
+            return [Outcome('ret', s2, enter)]
+        while work:
+            if len(outs) + len(work) > self.max_paths:
+                raise NotEncoded('path budget exceeded')
+            self.step(work.pop(), work, outs, ())
+        return outs
+
     def args_havoc(self, func, st=None):
         return [self.fresh(ty, self._dbg(func, name), st) for name, ty in func.args]
 
